@@ -89,6 +89,11 @@ def strategy(tier):
             "verbosity": draw(st.sampled_from([0, 0, 0, 1, 2])),
             "payload_seed": draw(st.integers(0, 2 ** 31 - 1)),
         })
+        if c["var_form"] in ("slices", "fancy"):
+            # slices of one design field: every variable is an array (scalar kinds would silently fall back to "signals")
+            for sg in c["sigs"]:
+                if sg["kind"] != "arr":
+                    sg["kind"], sg["size"] = "arr", draw(st.integers(1, 6))
         return c
 
     return case()
